@@ -804,7 +804,9 @@ inline std::string LifecycleProps(const Cell& cell) {
     const char* prefix;
     const char* prop;
   } kRules[] = {{"when", "all/", ",C09"}, {"when", "join/", ",C09"}, {"when", "any/", ",C10"},
-                {"wg", "waitgroup/", ",C16"},  {"coro", "", ",C13"}};
+                {"wg", "waitgroup/", ",C16"},  {"coro", "", ",C13"},
+                // C12 "destroying [a Task] that already completed just releases its result", "releases every captured functor"
+                {"coro", "await-lazy-task", ",C12"}, {"coro", "task-coroutine/", ",C12"}};
   std::string props = "C03";
   for (auto& r : kRules) {
     if (std::strcmp(g_cfg.family, r.family) == 0 && std::strncmp(cell.name, r.prefix, std::strlen(r.prefix)) == 0) {
